@@ -45,8 +45,24 @@ func main() {
 	}
 	defer broker.Stop()
 
+	// progress log: a sequence that was started but not finished when the
+	// process dies (a panic inside the server under test cannot be recovered
+	// from here) is the witness the driver re-runs on its own
+	var progress *os.File
+	if pth := os.Getenv("C14_PROGRESS"); pth != "" {
+		progress, _ = os.OpenFile(pth, os.O_CREATE|os.O_APPEND|os.O_WRONLY, 0o644)
+	}
+	var pmu sync.Mutex
+	mark := func(ev string, s *seqSpec) {
+		if progress != nil {
+			pmu.Lock()
+			fmt.Fprintf(progress, "%s %d %s %s %s\n", ev, s.id, s.leg, s.proto, s.mode)
+			pmu.Unlock()
+		}
+	}
 	var jmu sync.Mutex
 	record := func(s *seqSpec, res *seqResult) {
+		mark("D", s)
 		jmu.Lock()
 		defer jmu.Unlock()
 		run.Eval(1)
@@ -73,6 +89,7 @@ func main() {
 			if only >= 0 && s.id != only {
 				continue
 			}
+			mark("S", s)
 			res := runSequence(s, broker)
 			if len(res.desync) > 0 && s.proto == "json" {
 				restrict = true
@@ -90,6 +107,7 @@ func main() {
 				run.Add("probe_sequences_skipped_json_stream_defect_present", 1)
 				continue
 			}
+			mark("S", s)
 			res := runSequence(s, broker)
 			if len(res.desync) > 0 && s.proto == "json" {
 				restrict = true
@@ -111,6 +129,7 @@ func main() {
 			defer wg.Done()
 			for id := range ids {
 				s := genSpec(id, run.Rand(fmt.Sprintf("seq-%d", id)), restrict)
+				mark("S", s)
 				res := runSequence(s, broker)
 				if id < 4 {
 					run.Sample(s.describe())
